@@ -18,7 +18,7 @@
     ([P := fun _ => false] leaves "no block has time 0").
     [ctx_unused r0 steps]: the service module never hands the service context of the oracle
     request [r0] to another request (context ids are hashes of a counter in the service module). *)
-From Irismod Require Import Random.Model Random.Spec Random.Check Random.Proofs Random.Sound Random.Pass.
+From Irismod Require Import Random.Model Random.Spec Random.Check Random.Proofs Random.Sound Random.Pass Random.PassAll.
 
 (** ** the value: a decimal in [0,1) with exactly 20 fractional digits
 
@@ -288,6 +288,48 @@ Theorem compressed_cases_lossless :
   forall (l : list (step * obs)), expand obs0 (compress obs0 l) = l.
 Proof. intros l. exact (expand_compress l obs0). Qed.
 Print Assumptions compressed_cases_lossless.
+
+(** ** the model passes the whole check
+
+    For every history of plain requests (no oracle seed: the service environment does not
+    matter) satisfying the hypotheses of the property - no block with time 0, no requester
+    asking twice in one block ([allP]: for all requesters) - the checker [check_case], i.e.
+    correspondence + clauses 1-8 (bookkeeping from outside) + clause 9 (proven life cycle with
+    its hypothesis tracking), fed the MODEL's own observations ([model_trace]), returns
+    (-1, -1, 0): no divergence, no violation.  So on such histories an alarm always means that
+    the implementation showed something the model does not.  The same holds for the compressed
+    form the driver sends.  (For oracle-seeded requests clause 9 is covered for every history
+    by [model_passes_life_cycle_check]; clauses 7-8 read the service module from outside and
+    are validated by the mutation self-test only.) *)
+Theorem model_passes_check :
+  forall (sha : hin -> Z) (steps : list step),
+    sane allP [] steps -> plain steps ->
+    check_from sha init pinit tinit (model_trace sha init tinit steps) 0 (-1) (-1) 0 false = (-1, -1, 0).
+Proof. exact model_passes_check_lemma. Qed.
+Print Assumptions model_passes_check.
+
+Theorem model_passes_compressed_check :
+  forall (tbl : list (hin * Z)) (steps : list step),
+    sane allP [] steps -> plain steps ->
+    check_ccase (tbl, compress obs0 (model_trace (table_sha tbl) init tinit steps)) = (-1, -1, 0).
+Proof.
+  intros tbl steps Hs Hp. unfold check_ccase, check_case. cbn [fst snd].
+  rewrite expand_compress. exact (model_passes_check_lemma (table_sha tbl) steps Hs Hp).
+Qed.
+Print Assumptions model_passes_compressed_check.
+
+(** the hypotheses of [model_passes_check] hold of a history with two requesters due at one
+    height, a requester asking again in a later block, and a far request *)
+Example plain_history_nonvacuous :
+  let steps := [Req 0 2 false true 100 None; Begin 1700000000 1 []; Req 1 1 false true 101 None;
+                Req 0 0 false true 102 None; Begin 1700000003 2 []; Calls []; Begin 1700000003 2 [];
+                Req 2 4611686018427387904 false true 103 None; Begin 1700000009 3 []] in
+  sane allP [] steps /\ plain steps
+  /\ length (events (fun _ => 0) init steps) = 3%nat.
+Proof.
+  cbv zeta. split; [simpl; intuition (try discriminate; try lia)|].
+  split; [simpl; intuition lia|]. vm_compute. reflexivity.
+Qed.
 
 (** ** the hypotheses are needed, and are satisfiable *)
 
